@@ -128,9 +128,14 @@ ApplyCreate(o, e, rec) ==
      \* announces a deletion with the index of THIS create), data stays
      ELSE LET ss == Del(streams, o.s) IN fresh(ss, Announce(groups, o.s, e, ss))
 
+\* a replayed delete only tombstones the stream (the data waits for the end of
+\* the replay), but the groups hear of it at once, with the index of the delete
+\* (fix 2da7ea8; the later announcements - un-tombstone, finishedRecovery - then
+\* find no subscriber of the name and change nothing)
 ApplyDelete(o, e, rec) ==
   IF o.s \notin DOMAIN streams THEN Err("stream_not_found")
-  ELSE IF rec THEN [St EXCEPT !.streams[o.s].tomb = TRUE]
+  ELSE IF rec THEN LET ss == [streams EXCEPT ![o.s].tomb = TRUE] IN
+                   [St EXCEPT !.streams = ss, !.groups = Announce(groups, o.s, e, ss)]
   ELSE LET ss == Del(streams, o.s) IN
        [St EXCEPT !.streams = ss, !.disk = Del(disk, o.s), !.groups = Announce(groups, o.s, e, ss),
                   !.sref = Detach(sref, o.s)]
